@@ -19,6 +19,10 @@ pub struct Case {
     pub dic: DicModel,
     pub cfg: CfgModel,
     pub texts: Vec<Vec<Piece>>,
+    /// field subset requested for the direct A / B analyses (None: everything); the C analysis that is
+    /// split on demand always loads everything
+    #[serde(default)]
+    pub subset: Option<u16>,
 }
 
 pub struct C09;
@@ -44,7 +48,7 @@ impl Property for C09 {
         "C09"
     }
     fn rule(&self) -> &'static str {
-        "case = generated lexicons whose compounds are well formed (unit keys concatenate to the key; 2-3 units, nested compounds, units of different byte widths; \
+        "case = generated lexicons whose compounds are well formed (unit keys concatenate to the key; 2-3 units, nested compounds, units of different byte widths, arrays of 31-127 units; the direct A / B analyses run with a random field subset in half of the cases; \
          system->system, user->system, user->user references written as numbers, U-numbers or inline) x configuration (input-text plugins so that original and \
          normalised lengths differ, any OOV stack) x 1-4 texts containing compounds also in pre-normalised spellings. The text is analysed in C, A and B: boundaries(C) \
          must be included in boundaries(A) and (B); a C token whose word declares no unit must reappear unchanged; a C token whose word declares >= 2 units must be \
@@ -59,7 +63,7 @@ impl Property for C09 {
         dp.alphabet = vec!["a", "b", "c", "1", "あ", "ア", "京", "都", "𠮷", "é"];
         dp.max_key_chars = 2;
         let cp = CfgParams::full();
-        (world(dp, cp), vec(pieces_long(tier.pick(8, 24)), 1..=4)).prop_map(|((dic, cfg), texts)| Case { dic, cfg, texts }).boxed()
+        (world(dp, cp), vec(pieces_long(tier.pick(8, 24)), 1..=4), prop::option::weighted(0.5, 0u16..1024)).prop_map(|((dic, cfg), texts, subset)| Case { dic, cfg, texts, subset }).boxed()
     }
     fn cases_per_shard(&self, tier: Tier) -> u32 {
         tier.pick(5000, 100000)
@@ -92,7 +96,10 @@ impl Property for C09 {
             };
             for t in &case.texts {
                 let text = render_pieces(&keys, t);
-                let (mc, ma, mb) = match (analyze(&dict, &text, Mode::C, None), analyze(&dict, &text, Mode::A, None), analyze(&dict, &text, Mode::B, None)) {
+                // path-rewrite plugins read fields of their own (C11 speaks about configurations without them): the
+                // second pass always loads everything
+                let sub = if pass == 1 { None } else { case.subset.map(|b| sudachi::dic::subset::InfoSubset::from_bits_truncate(b as u32)) };
+                let (mc, ma, mb) = match (analyze(&dict, &text, Mode::C, None), analyze(&dict, &text, Mode::A, sub), analyze(&dict, &text, Mode::B, sub)) {
                     (Ok(c), Ok(a), Ok(b)) => (c, a, b),
                     (Err(_), Err(_), Err(_)) => continue,
                     _ => {
